@@ -79,6 +79,12 @@ impl Iterator for KmerMinimiserGenerator<'_> {
 
         loop {
             if self.pos == self.seq.len() {
+                // emit the run that is still open at the end of the sequence
+                if self.m_active != u64::MAX {
+                    let last = (self.m_active, self.m_window_start, self.seq.len(), k_buff);
+                    self.m_active = u64::MAX;
+                    return Some(last);
+                }
                 return None;
             }
             let pos_char = self.seq[self.pos];
@@ -192,12 +198,6 @@ impl Iterator for KmerMinimiserGenerator<'_> {
                         self.m_active = *self.buff.get(j).unwrap();
                     }
                 }
-            }
-
-            if self.pos == self.seq.len() - 1 {
-                self.pos += 1;
-                // TODO return strand (implement only when needed)
-                return Some((self.m_active, self.m_window_start, self.seq.len(), k_buff));
             }
 
             self.pos += 1;
